@@ -24,7 +24,7 @@ CONSTANT EPs        \* the entry points explored by this configuration (subset o
 
 Outcomes == {"ok", "error", "fallback"}
 
-EntryPoints == {"execv2", "execv1", "graffiti", "builderbid", "proposalbest", "proposer",
+EntryPoints == {"execv2", "execv1", "execmutate", "graffiti", "builderbid", "proposalbest", "proposer",
                 "attester", "aggregator", "syncmessenger", "syncaggregator", "mergeduties",
                 "cacheevents", "submitclassify"}
 
@@ -64,6 +64,16 @@ ExecV1 ==
      pc : {"absent", "empty", "one", "null", "badkey", "shortkey", "dup"},
      brelays : {"empty", "one", "null"},
      match : {"y", "n"}]
+
+(* execution configuration "of any shape": a complete baseline document with one structural       *)
+(* mutation of its JSON tree                                                                       *)
+(*  base  v2 (version 2 document with every field at every level, two proposer entries) | v1       *)
+(*  site  the node (depth first, modulo the number of nodes) that is mutated                        *)
+(*  mut   the node becomes null | {} | [] | "" | 0 | true | a string, is deleted, or its member is  *)
+(*        written twice                                                                             *)
+ExecMutate ==
+    [base : {"v2", "v1"}, site : {ToString(i) : i \in 0..69},
+     mut : {"null", "emptyobj", "emptyarr", "emptystr", "zero", "true", "string", "delete", "duplicate"}]
 
 (* dynamic graffiti provider (content fetched from an operator-supplied location)                *)
 (*  file     missing | error | empty | blank (only newlines) | spaces | crlf | one | many |       *)
@@ -210,6 +220,7 @@ SubmitClassify ==
 Shapes(ep) ==
     CASE ep = "execv2" -> ExecV2
       [] ep = "execv1" -> ExecV1
+      [] ep = "execmutate" -> ExecMutate
       [] ep = "graffiti" -> Graffiti
       [] ep = "builderbid" -> BuilderBid
       [] ep = "proposalbest" -> ProposalBest
